@@ -3,6 +3,7 @@ import random
 
 import compat  # noqa: F401
 import accfg_common as ac
+import accfg_links as al
 import snaxrun
 from framework import Prop
 
@@ -11,20 +12,140 @@ def trace_states(src):
     return snaxrun.run_passes(src, "accfg-trace-states")
 
 
-class C07(Prop):
+def eval_cost(body, c=1):
+    """Upper estimate of the work of the Lean driver's evaluator on a converted program: the facts are closures, `meet` evaluates
+    its left argument twice and a loop analyses its body twice, so sequences of conditionals / nested loops multiply. Programs
+    beyond EVAL_LIMIT (a handful per thousand, minutes each) are judged by the oracle only."""
+    def w(b, c):
+        for s in b:
+            c = ws(s, c)
+        return c
+
+    def ws(s, c):
+        t = s[0]
+        if t == "setup":
+            return c + 1
+        if t == "call":
+            return 1 if s[2] else c
+        if t == "if":
+            return 2 * w(s[2], c) + w(s[3], c) + 1
+        if t == "for":
+            return 2 * c + w(s[5], 2 * c + w(s[5], c)) + 1
+        return c
+
+    tot = 0
+    for s in body:
+        t = s[0]
+        if t in ("setup", "launch"):
+            tot += c
+        elif t == "if":
+            tot += eval_cost(s[2], c) + eval_cost(s[3], c)
+        elif t == "for":
+            tot += eval_cost(s[5], 2 * c + w(s[5], c))
+        c = ws(s, c)
+    return tot
+
+
+EVAL_LIMIT = 10 ** 7
+
+
+class LinksMixin:
+    """case kind "links": the threading pass and the link-following inference INSIDE the model (Model/AccfgLinks.lean).
+    impl: the untraced input converted to the pre-linked IR (PBlock), the REAL traced IR converted to the linked IR (LBlock,
+    canonical state ids), real `infer_state_of` of EVERY state value and at every setup / launch.
+    model: `weave` of the PBlock (must equal the real link structure), `inferL` on it and on the converted real IR."""
+
+    def links_impl(self, case):
+        try:
+            m0 = snaxrun.parse(case["src"])
+            m0.verify()
+        except Exception as e:
+            return {"invalid_input": type(e).__name__}
+        try:
+            cp = al.ConvP(ac.find_func(m0))
+        except ac.Unsupported as e:
+            return {"unmodelled": str(e)}
+        pre = al.has_prethreaded_loop(case["src"])
+        try:
+            traced = trace_states(case["src"])
+        except Exception as e:
+            # the pass (or the module verifier behind it) raised: an outcome the model has to predict (`weaveBad`)
+            return {"P": cp.body, "pass_raised": type(e).__name__, "msg": str(e)[:200]}
+        f = ac.find_func(snaxrun.parse(traced))
+        try:
+            cl = al.ConvL(f)
+        except ac.Unsupported as e:
+            return {"unmodelled": "traced: " + str(e)}
+        if eval_cost(cl.body) > EVAL_LIMIT:
+            return {"unmodelled": "evaluator cost"}
+        # claim checked by the model's decidable link validation on the converted REAL IR (skipped in the class of DC07a)
+        return {"P": cp.body, "L": cl.body, "infer": cl.real_inference(), "annot": ac.real_inference_at_points(cl),
+                "links_sound": None if pre else True}
+
+    def links_requests(self, case, impl_out):
+        if "P" not in impl_out:
+            return []
+        reqs = [{"fn": "c07links.weave", "args": {"body": impl_out["P"]}}]
+        if "L" in impl_out:
+            reqs.append({"fn": "c07links.infer", "args": {"body": impl_out["L"]}})
+        return reqs
+
+    def links_model(self, case, answers, impl_out):
+        if "P" not in impl_out:
+            return impl_out
+        w = answers[0]
+        if "err" in w:
+            return {"model_error": w["err"]}
+        w = w["ok"]
+        if not w["wf"] or not w["nodup"]:
+            return {"model_error": "converted program violates the theorems' well-formedness predicates", "wf": w["wf"], "nodup": w["nodup"]}
+        if w["plain"] == al.has_prethreaded_loop(case["src"]):
+            return {"model_error": "clause NoPreThreadedLoops evaluated differently by the model and the harness"}
+        if w["bad"]:
+            # the model predicts malformed IR (operands / block arguments of a loop do not match): the verifier raises
+            return {"P": impl_out["P"], "pass_raised": "VerifyException", "msg": impl_out.get("msg")}
+        if "L" not in impl_out:
+            return {"P": impl_out["P"], "L": w["woven"], "model_predicts": "no exception"}
+        i = answers[1]
+        if "err" in i:
+            return {"model_error": i["err"]}
+        i = i["ok"]
+        out = {"P": impl_out["P"], "L": w["woven"], "infer": al.canon_states(w["infer"]),
+               "annot": [sorted(x) if isinstance(x, list) else x for x in w["annot"]],
+               "links_sound": i["linksSound"] if w["plain"] else None}
+        if w["plain"] and not w["linksSound"]:
+            out["model_error"] = "soundChkB fails on weave p for a plain program (contradicts weave_links_agree_partial)"
+        if not w.get("ranked", True) or not i.get("ranked", True):
+            # hypothesis of inferL_fuel_suffices (decidable, evaluated on the woven and on the converted real program)
+            out["model_error"] = "owner table is not ranked / closed: fuelOf is not known to suffice"
+        # the same inference on the converted REAL traced IR (meaningful also when the link structures differ)
+        real_l = {"infer": al.canon_states(i["infer"]), "annot": [sorted(x) if isinstance(x, list) else x for x in i["annot"]]}
+        if real_l["infer"] != impl_out["infer"] or real_l["annot"] != impl_out["annot"]:
+            out["inferL_on_real_links"] = real_l
+        return out
+
+
+class C07(LinksMixin, Prop):
     id = "C07"
+    module = "SnaxVerif.Props.C07Links"  # imports Props.C07
     PARALLEL = True
     USES_IMPL = True
     CASE_TIMEOUT = 60
     trusted_base = [
-        "modelled: infer_state_of / state_intersection (trace_acc_state.py, with F1) as the forward analysis knownB; "
-        "_weave_states_in_region (convert_linalg_to_accfg.py, with F2) is NOT modelled syntactically: its output is "
-        "validated per program by comparing infer_state_of at every setup/launch with knownB of the erased program",
+        "modelled: infer_state_of / state_intersection (trace_acc_state.py) twice: as the forward analysis knownB on the IR with "
+        "state values erased (Model/Accfg.lean) and as the link-following inferL with the assume dictionary on the linked IR "
+        "(Model/AccfgLinks.lean); _weave_states_in_region (convert_linalg_to_accfg.py) as `weave` on the linked IR; the theorem "
+        "weave_links_agree relates the two for all programs; correspondence: real links = weave (up to renaming of state values and "
+        "the order of scf.if results), real infer_state_of = inferL at EVERY state value, = knownB at every setup/launch",
+        "the state dictionary of the pass is modelled as a total function accelerator -> optional state value; candidate accelerators "
+        "for new scf.if results are those set up in a branch (sorted) instead of Python dict order",
         "abstract CSR machine (harness/accfg_common.py) = oracle semantics, cross-checked against the Lean execB on every case",
     ]
     assumptions = [
         "hardware: a launch observes all registers of its accelerator; an unannotated call may change every register",
         "programs: setups, launches, awaits, arith, calls without operands, scf.if without data results, scf.for without data iter_args",
+        "linked model: input loops / conditionals carry no state values yet (pre-existing links only on setups); launches are judged when "
+        "they follow the setup of their accelerator in straight-line code (the pass never re-links a launch)",
     ]
     rule = ("random structured programs before state tracing (<=2 accelerators, depth<=3, full or partial setups, calls with and "
             "without effects<none>); non-trivial = contains control flow and at least one non-empty assumed state")
@@ -35,8 +156,20 @@ class C07(Prop):
             g = ac.Gen(random.Random(rng.getrandbits(48)), full=rng.random() < 0.6, depth=rng.choice([1, 2, 2, 3]),
                        prethread=rng.random() < 0.25, carried=rng.choice([0.0, 0.0, 0.5]))
             yield {"kind": "trace", "src": g.program(), "xseed": rng.getrandbits(32)}
+        # the same generator, second stream: links of the real pass vs `weave`, real infer_state_of vs `inferL`
+        n = 500 if tier == "quick" else 6000
+        for i in range(n):
+            g = ac.Gen(random.Random(rng.getrandbits(48)), full=rng.random() < 0.6, depth=rng.choice([1, 2, 2, 3]),
+                       prethread=rng.random() < 0.4, carried=rng.choice([0.0, 0.0, 0.0, 0.5]))
+            src = g.program()
+            if rng.random() < 0.4:
+                # pre-existing loop-carried state (stale yields / inits: class of the known findings DC07a, DC07b)
+                src = al.prethread_loops(src, random.Random(rng.getrandbits(32)))
+            yield {"kind": "links", "src": src, "xseed": rng.getrandbits(32)}
 
     def impl(self, case):
+        if case.get("kind") == "links":
+            return self.links_impl(case)
         try:
             _m = snaxrun.parse(case["src"])
             _m.verify()
@@ -51,8 +184,10 @@ class C07(Prop):
             conv = ac.Conv(f)
         except ac.Unsupported as e:
             return {"unmodelled": str(e)}  # outside the model's IR fragment: judged by the oracle only
-        points = ac.real_inference_at_points(conv)
         prog = conv.program()
+        if eval_cost(prog["body"]) > EVAL_LIMIT:
+            return {"unmodelled": "evaluator cost"}
+        points = ac.real_inference_at_points(conv)
         execs = []
         for args in ac.executions(random.Random(case["xseed"]), 6):
             tr = ac.run_func(f, args, calltag=conv.calltag, universe=conv.universe())
@@ -60,6 +195,8 @@ class C07(Prop):
         return {"prog": prog, "points": points, "execs": execs}
 
     def requests(self, case, impl_out):
+        if case.get("kind") == "links":
+            return self.links_requests(case, impl_out)
         if "raised" in impl_out or "invalid_input" in impl_out or "unmodelled" in impl_out:
             return []
         p = impl_out["prog"]
@@ -69,6 +206,8 @@ class C07(Prop):
         return reqs
 
     def model(self, case, answers, impl_out):
+        if case.get("kind") == "links":
+            return self.links_model(case, answers, impl_out)
         if "raised" in impl_out or "invalid_input" in impl_out or "unmodelled" in impl_out:
             return impl_out  # the model has no syntactic weave: an exception of the real pass is judged by the oracle
         a = answers[0]
@@ -84,11 +223,20 @@ class C07(Prop):
     def oracle(self, case, impl_out):
         if "invalid_input" in impl_out:
             return []  # not a program: nothing to check
-        if "raised" in impl_out:
-            return [{"what": f"accfg-trace-states raised {impl_out['raised']}: {impl_out.get('msg')}", "finding": None}]
+        # classifier, by the named clause on the INPUT: a loop that already carries a state value (NoPreThreadedLoops)
+        pre = al.has_prethreaded_loop(case["src"])
+        raised = impl_out.get("raised") or impl_out.get("pass_raised")
+        if raised:
+            return [{"what": f"accfg-trace-states raised {raised}: {impl_out.get('msg')}",
+                     "finding": "DC07b" if pre and raised == "VerifyException" else None}]
         from snaxc.dialects import accfg
         from snaxc.inference.trace_acc_state import infer_state_of
-        mod = snaxrun.parse(trace_states(case["src"]))
+        try:
+            traced = trace_states(case["src"])
+        except Exception as e:  # (cases whose impl side stopped before running the pass, e.g. outside the model's fragment)
+            return [{"what": f"accfg-trace-states raised {type(e).__name__}: {str(e)[:200]}",
+                     "finding": "DC07b" if pre and type(e).__name__ == "VerifyException" else None}]
+        mod = snaxrun.parse(traced)
         f = ac.find_func(mod)
         bad = []
 
@@ -119,15 +267,19 @@ class C07(Prop):
             except ac.Undefined as e:
                 bad.append(str(e))
             if bad:
-                return [{"what": f"{bad[0]} (args={args})", "finding": None}]
+                return [{"what": f"{bad[0]} (args={args})", "finding": "DC07a" if pre else None}]
         return []
 
     def stats_key(self, case, impl_out):
+        if case.get("kind") == "links" and "P" in impl_out and al.has_prethreaded_loop(case["src"]):
+            return "links:pre-threaded-loop" + (":pass-raised" if "pass_raised" in impl_out else "")
         if "unmodelled" in impl_out:
-            return "trace:oracle-only(" + impl_out["unmodelled"] + ")"
+            return case.get("kind", "trace") + ":oracle-only(" + impl_out["unmodelled"] + ")"
         return super().stats_key(case, impl_out)
 
     def nontrivial(self, case, impl_out):
+        if case.get("kind") == "links":
+            return "L" in impl_out and "infer" in impl_out and any(s for _, s in impl_out["infer"]) and ("scf.for" in case["src"] or "scf.if" in case["src"])
         return "prog" in impl_out and any(impl_out["points"]) and ("scf.for" in case["src"] or "scf.if" in case["src"])
 
     def mutants(self, case, rng):
